@@ -32,3 +32,13 @@ pub fn is_permutation(v: &[usize]) -> bool {
     }
     true
 }
+
+/// Cached rayon pools (building a 16-thread pool per case is far more expensive than the case itself).
+pub fn pool(threads: usize) -> &'static rayon::ThreadPool {
+    use std::sync::{Mutex, OnceLock};
+    static POOLS: OnceLock<Mutex<std::collections::HashMap<usize, &'static rayon::ThreadPool>>> = OnceLock::new();
+    let m = POOLS.get_or_init(|| Mutex::new(std::collections::HashMap::new()));
+    let mut g = m.lock().unwrap();
+    let t = threads.clamp(1, 16);
+    g.entry(t).or_insert_with(|| Box::leak(Box::new(rayon::ThreadPoolBuilder::new().num_threads(t).build().expect("rayon pool"))))
+}
